@@ -216,6 +216,13 @@ class ScriptedPeer(PeerBase):
             else:
                 b[-1] ^= 0x55
             return self.send(s, bytes(b), 0, n)
+        if name == "excbad":            # exception frame with a wrong checksum (Modbus/TCP has none: sent intact there)
+            e = self.exception(req, 2)
+            if e is None:
+                return
+            if self.framing != "tcp":
+                e = e[:-1] + bytes([e[-1] ^ 0x55])
+            return self.send(s, e, 0, n)
         if name == "exc":
             code = args[0] if args else 2
             e = self.exception(req, code)
